@@ -82,6 +82,10 @@ func genHeaderSet(g *Gen) (hdr [][2]string, status int) {
 	if g.p(0.2) {
 		hdr = append(hdr, [2]string{"Expires", "Thu, 01 Dec 2033 16:00:00 GMT"})
 	}
+	if g.p(0.06) {
+		// the origin is a cache tier itself and labels its answers the same way
+		hdr = append(hdr, [2]string{"X-Status", pick(g, "hit", "fetching", "hitForPass")})
+	}
 	status = pick(g, 200, 200, 200, 200, 201, 301, 404, 410, 500, 503)
 	return
 }
